@@ -145,4 +145,13 @@ CHECKS["C12"] = {
             "real container variants (incl. legacy pcap) and compared.",
     "note": TRUST + "dpkt's struct-level block parsing (third-party) is replaced by a block-level model in the symbolic harness and exercised only concretely by the container variants; multiple sections/interfaces are outside the claim.",
 }
+CHECKS["C04"] = {
+    "technique": "symbolic execution of main.handle_packet / handle_quic_packet and the session classes on two connections merged by a solver-chosen interleaving, with solver-chosen endpoint aliasing and key-log order; compared with each connection's solo run (self-composition)",
+    "text": "For TLS+TLS, QUIC+QUIC and TLS+QUIC pairs, every order-preserving interleaving of the two packet sequences, every aliasing "
+            "pattern of the endpoints within the bound (same hosts / other client port, same client towards another server, one's client "
+            "on the other's server host), both server ports, both key-log orders and symbolic connection contents (randoms, secrets, "
+            "connection ids incl. zero-length, data, ciphertexts), z3 shows that every TLS session holds the packets of exactly one "
+            "connection and that each connection's export equals its export when alone.",
+    "note": TRUST + "Models as C01/C02. Two connections; endpoint values are fixed constants combined per aliasing pattern (so address comparisons do not fork); non-empty connection ids of different connections are assumed not to be prefixes of each other.",
+}
 NOT_APPLICABLE = {}
